@@ -340,7 +340,7 @@ fn run_once(c: &PolicyCase, env: &Env) -> Run {
             run.labels.push("interval-sync".into());
             let sync_ms = c.interval_ms.clamp(10, 100) as u64;
             shim::register(&env.scratch);
-            shim::record_start();
+            shim::record_start_fsync_only();
             let kv = match catch(|| config_json(&base_cfg, &dir, None, Some(serde_json::json!({ "interval_ms": sync_ms }))).open()) {
                 Ok(Ok(kv)) => kv,
                 _ => {
@@ -351,6 +351,25 @@ fn run_once(c: &PolicyCase, env: &Env) -> Run {
             };
             let h = kv.get_handle();
             let active = format!("{}.bitcask.data", h.verif_dump().active_fileid);
+            // writer threads that keep the writer mutex busy for the whole window (0-3 of them,
+            // from the case): a tick must wait for the mutex, not be dropped
+            let hammer_stop = std::sync::Arc::new(std::sync::atomic::AtomicBool::new(false));
+            let mut hammers = Vec::new();
+            if c.max_file_size >= (2 << 30) {
+                for t in 0..(c.deletes % 4) {
+                    let (hh, stop) = (h.clone(), hammer_stop.clone());
+                    hammers.push(std::thread::spawn(move || {
+                        let mut i = 0u64;
+                        while !stop.load(std::sync::atomic::Ordering::SeqCst) {
+                            let _ = hh.set(Bytes::from(format!("hammer-{}-{}", t, i % 8).into_bytes()), Bytes::from(vec![b'h'; 64]));
+                            i += 1;
+                        }
+                    }));
+                }
+            }
+            if !hammers.is_empty() {
+                run.labels.push("interval-sync-with-busy-writers".into());
+            }
             // keep writing a little so that there is something to sync
             let t0 = Instant::now();
             // 10 intervals, but at least half a second: under load the worker's ticks slip
@@ -363,6 +382,10 @@ fn run_once(c: &PolicyCase, env: &Env) -> Run {
                 }
                 i += 1;
                 std::thread::sleep(Duration::from_millis(sync_ms / 2 + 1));
+            }
+            hammer_stop.store(true, std::sync::atomic::Ordering::SeqCst);
+            for j in hammers {
+                let _ = j.join();
             }
             let log = shim::record_stop();
             let active_now = format!("{}.bitcask.data", h.verif_dump().active_fileid);
@@ -417,7 +440,7 @@ pub fn prop() -> Prop<PolicyCase> {
     Prop {
         id: "C18",
         level: "exploration",
-        rule: "Cases: a write pattern (2-23 keys set, 0-23 overwritten, 0-7 deleted, small or 2 GiB max_file_size) written with all background activity off; an independent decoder measures the worst per-file dead bytes and fragmentation; the store is then reopened with policy never or always, check interval 20-200 ms, jitter 0-1, and triggers placed relative to the measured values: far below (exceeded), exactly at the measured value (not exceeded - the trigger rule is a strict 'exceeds'), just below (exceeded), far above. Oracles: never -> no merge evidence (no new hint file, no data file removed) during 6 intervals; always + exceeded -> merge evidence within interval*(1+jitter)+2 s with no client action, then a quiet period; always + not exceeded -> none during 6 intervals. A fourth mode fails the first background merge pass once (transient ENOSPC injected by the shim when it creates its hint file) and requires a completed merge within 3 intervals + 2 s, since the triggers stay exceeded. Interval sync (10-100 ms): under the LD_PRELOAD recorder the active file must be fsynced at least 3 times in a window of 10 intervals (at least 500 ms). Non-trivial: a trigger within one unit of the measured value, a policy-never case, an observed merge followed by a quiet period, or a sync window; distinct = distinct hash of the case.",
+        rule: "Cases: a write pattern (2-23 keys set, 0-23 overwritten, 0-7 deleted, small or 2 GiB max_file_size) written with all background activity off; an independent decoder measures the worst per-file dead bytes and fragmentation; the store is then reopened with policy never or always, check interval 20-200 ms, jitter 0-1, and triggers placed relative to the measured values: far below (exceeded), exactly at the measured value (not exceeded - the trigger rule is a strict 'exceeds'), just below (exceeded), far above. Oracles: never -> no merge evidence (no new hint file, no data file removed) during 6 intervals; always + exceeded -> merge evidence within interval*(1+jitter)+2 s with no client action, then a quiet period; always + not exceeded -> none during 6 intervals. A fourth mode fails the first background merge pass once (transient ENOSPC injected by the shim when it creates its hint file) and requires a completed merge within 3 intervals + 2 s, since the triggers stay exceeded. Interval sync (10-100 ms; in most cases with 1-3 threads writing continuously so that the writer mutex is busy when a tick comes): under the LD_PRELOAD recorder the active file must be fsynced at least 3 times in a window of 10 intervals (at least 500 ms). Non-trivial: a trigger within one unit of the measured value, a policy-never case, an observed merge followed by a quiet period, or a sync window; distinct = distinct hash of the case.",
         assumptions: &[
             "positive deadlines carry 2 s of slack and are re-tried once before being reported; negative windows are 6 check intervals",
             "the merge window policy is not generated (the property does not mention it)",
